@@ -211,6 +211,42 @@ def respJudge (f : List String) (out : String) : String :=
     | _, _, _ => "bad:unparsable:" ++ out
   | _, _ => "bad:unparsable:" ++ out
 
+/-
+  c04.wire  method path rawpath query bodyLen bodySeed chunk upstream status respLen respSeed respChunked announced unannounced
+     out = method path-at-backend query-at-backend request-body status response-body trailers
+  The model's part is the path (Director of upstream block A or B); everything else must arrive unchanged.
+-/
+def wireExpected (f : List String) : Option String :=
+  match f with
+  | [m, p, _rp, q, _bl, _bs, _ch, ups, st, _rl, _rs, _rc, ann, unann] => do
+    let path ← Driver.unhex p
+    let t : URL := { scheme := sHttp, host := [], path := if ups == "B" then bytes "/base" else [], rawPath := [], opaq := [], rawQuery := [] }
+    let wo : Str := if ups == "B" then bytes "/api" else []
+    let o := director t wo { scheme := [], host := [], path := path, rawPath := [], opaq := [], rawQuery := [] }
+    let tr : Hdr := (← parseHdr ann) ++ (← parseHdr unann)
+    pure ("\t".intercalate [m, Driver.hex o.path, q, "same", st, "same", showHdr tr])
+  | _ => none
+
+def wireModel (f : List String) : String := (wireExpected f).getD "bad-case"
+
+def wireJudge (f : List String) (out : String) : String :=
+  match wireExpected f with
+  | none => "bad:unparsable:case"
+  | some e =>
+    if out == e then "ok"
+    else
+      match e.splitOn "\t", out.splitOn "\t" with
+      | [m, p, q, b, st, rb, tr], [m', p', q', b', st', rb', tr'] =>
+        if m != m' then "bad:method:changed on the wire"
+        else if p != p' then "bad:path:not base + (path minus without) on the wire"
+        else if q != q' then "bad:query:changed on the wire"
+        else if b != b' then "bad:body:request body changed on the wire"
+        else if st != st' then "bad:status:changed on the wire"
+        else if rb != rb' then "bad:body:response body changed on the wire"
+        else if tr != tr' then "bad:trailer:changed on the wire"
+        else "bad:unparsable:" ++ out
+      | _, _ => "bad:unparsable:" ++ out
+
 def canonModel : List String → String
   | [h] => match Driver.unhex h with
     | some s => Driver.hex (canon s)
@@ -229,6 +265,7 @@ def streams : List Driver.Stream := [
   { name := "c04.req", model := reqModel, judge := reqJudge },
   { name := "c04.resp", model := respModel, judge := respJudge },
   { name := "c04.retry", model := retryModel, judge := retryJudge },
+  { name := "c04.wire", model := wireModel, judge := wireJudge },
   { name := "c04.canon", model := canonModel, judge := fun _ _ => "ok" },
   { name := "c04.shp", model := shpModel, judge := fun _ _ => "ok" }
 ]
